@@ -7,9 +7,9 @@ import (
 	"verifmc/ev"
 )
 
-// SchedBuffers runs the receive-buffer scenarios (S5*) under another property id (C11).
+// SchedBuffers runs the receive-buffer scenarios (S5*) and the dropped-at-send scenarios (S6*) under another property id (C11).
 func SchedBuffers(id string) func(*ev.Run) {
 	return func(r *ev.Run) {
-		RunSpecs(r, id, func(sp conc.Spec) bool { return sp.Proto == 4 && strings.Contains(sp.Name, "S5") })
+		RunSpecs(r, id, func(sp conc.Spec) bool { return sp.Proto == 4 && (strings.Contains(sp.Name, "S5") || strings.Contains(sp.Name, "S6")) })
 	}
 }
